@@ -254,8 +254,9 @@ void MEDDLY::inter_mt::_compute(int L, unsigned in,
         }
     }
 
-    if ((A == B) && (arg1F==arg2F)) {
-        // A and A = A
+    if ((A == B) && ((arg1F==arg2F) || arg1F->isTerminalNode(A))) {
+        // A and A = A; also TRUE and TRUE across forests,
+        // which no case above catches when neither forest is fully reduced
         edge_value dummy;
         dummy.set();
         MEDDLY_DCASSERT(copy_arg1res);
